@@ -382,10 +382,12 @@ func signature(sc *scen, what string) string {
 	keySecs := map[string]bool{"tagkey": true, "fieldkey": true}
 	nameSecs := map[string]bool{"meas": true, "tagkey": true, "tagval": true, "fieldkey": true}
 	switch {
-	case hasAtom(sc, keySecs, "esc", "e"):
-		return "escaped-equals-in-key:key-value-split-at-first-equals-sign"
+	// the quote feature first: a line with both features still fails on the quote once the
+	// escaped-equals defect is repaired
 	case hasAtom(sc, nameSecs, "lit", "q"):
 		return "double-quote-outside-string-field:toggles-quote-state-of-delimiter-split"
+	case hasAtom(sc, keySecs, "esc", "e"):
+		return "escaped-equals-in-key:key-value-split-at-first-equals-sign"
 	}
 	switch sc.Fam {
 	case "value":
